@@ -17,7 +17,11 @@ for d in names:
     silent = sorted(c for c, r in checks.items() if r.get('exit') == 0)
     esc = lambda s: (s or '').replace('|', '\\|').replace('\n', ' ')
     first_run = m.get('first_run_detected')
-    rows.append('| `%s` | %s | %s | %s | %s | %s |' % (d, prop, esc(m.get('change')), esc(m.get('needs_to_manifest')), ', '.join(rep), ', '.join(silent) or '-'))
+    needs = esc(m.get('needs_to_manifest'))
+    if m.get('retired'):
+        needs = (needs + ' **Retired** ' + esc(m['retired'])).strip()
+    rows.append('| `%s` | %s | %s | %s | %s | %s |' % (d, prop, esc(m.get('change')), needs, ', '.join(rep), ', '.join(silent) or '-'))
+retired = sum(1 for d in names if json.load(open(os.path.join(V, 'seeded', d, 'meta.json'))).get('retired'))
 n = len(names)
 own = sum(1 for d in names if json.load(open(os.path.join(V, 'seeded', d, 'meta.json'))).get('checks', {}).get(json.load(open(os.path.join(V, 'seeded', d, 'meta.json'))).get('property'), {}).get('exit') == 1)
 intro = '''## Appendix G - seeded changes and which checks report them
@@ -29,13 +33,13 @@ asked for a realistic change that passes the 333 tests but breaks the property a
 confirmed each one myself in a scratch worktree (suite green with the change; the demonstration fails with it and passes without
 it) before keeping it under `seeded/<name>/` (`patch.diff`, `demo.py`, `meta.json`). `tools/rerun_seeded.py` re-applies every
 stored change to a fresh worktree of the current `/repo` HEAD and runs the checks with `VERIF_REPO=<worktree>`; nothing is ever
-applied to `/repo` itself. At the last full re-run %d of %d are reported by the check of their own property. In the third and
+applied to `/repo` itself. At the last full re-run %d of %d are reported by the check of their own property (%d retired: a later repair removed what it relied on). In the third and
 fourth round 8 of the 19 changes each were silent at first; `needs` names what was added to the specification or the inputs for
 each (section 0.8); no oracle was weakened. Eight patches were re-written after `fix:` commits changed the lines they touch.
 
 | name | property | change | needs (to manifest) / what was added | reported by (first clause) | run but silent |
 |---|---|---|---|---|---|
-''' % (n, own, n)
+''' % (n, own, n, retired)
 p = os.path.join(V, 'DESIGN.md')
 s = open(p).read()
 i = s.index('## Appendix G')
